@@ -27,7 +27,7 @@ ASSUMPTIONS = [
     "the observable meaning of the module is what main.py prints: every used name's value, every __all__ name, every name other.py takes",
     "project modules have no import-time side effects besides definitions",
 ]
-BUDGET = {"quick": (7200, 240), "thorough": (160000, 2700)}
+BUDGET = {"quick": (30000, 240), "thorough": (300000, 2700)}
 
 ACTIONS = ["organize_imports", "expand_star_imports", "froms_to_imports", "relatives_to_absolutes", "handle_long_imports"]
 # (statement template, names it binds -> expression giving an int when evaluated in the module)
@@ -48,6 +48,8 @@ FORMS = {
     "rel_from_dot": ("from . import a", {"a": "a.x1"}),
     "rel_from_mod": ("from .b import y1", {"y1": "y1"}),
     "long": ("import pkg.a.deep.deeper.leafmod", {"pkg": "pkg.a.deep.deeper.leafmod.z"}),
+    "import_pkg": ("import pkg", {"pkg": "pkg.P0"}),
+    "rel_from_multi": ("from .b import y1, y2", {"y1": "y1", "y2": "y2"}),
 }
 USAGES = ["plain", "plain", "plain", "function_only", "function_only", "all_only", "all_only", "reexport_only", "unused", "unused", "shadowed", "shadowed"]
 
@@ -82,7 +84,8 @@ def strategy(tier):
 def render(case):
     files = {
         "lib.py": "def f1():\n    return 1\ndef f2():\n    return 2\ndef f3():\n    return 3\ndef f4():\n    return 4\nclass C1:\n    def __init__(self):\n        self.v = 5\n__all__ = ['f1', 'f2', 'f3', 'f4', 'C1']\n",
-        "pkg/__init__.py": "",
+        "pkg/__init__.py": "P0 = 41\n",
+        "b.py": "y1 = 91\ny2 = 92\n",  # a top-level namesake of pkg/b.py: a relative import must stay relative
         "pkg/a/__init__.py": "x1 = 11\nx2 = 12\n",
         "pkg/a/deep/__init__.py": "",
         "pkg/a/deep/deeper/__init__.py": "",
@@ -167,9 +170,9 @@ def hazards(case):
         hz.add("froms_to_imports_of_a_module_imports_only_the_package")
     if a in ("organize_imports", "handle_long_imports") and "star" in st_ and st_ & {"from_lib", "from_lib_multi"}:
         hz.add("star_import_dropped_on_reapplication_next_to_explicit_from_import")
-    if a == "froms_to_imports" and {"import_dotted_as", "rel_from_mod"} <= st_:
+    if a == "froms_to_imports" and "import_dotted_as" in st_ and st_ & {"rel_from_mod", "rel_from_multi"}:
         hz.add("froms_to_imports_reapplied_drops_aliased_import_of_same_module")
-    if a == "froms_to_imports" and st_ & {"rel_from_mod", "from_pkg_a"} and st_ & {"long", "import_dotted"} and case["usage"].get("pkg") == "all_only":
+    if a == "froms_to_imports" and st_ & {"rel_from_mod", "rel_from_multi", "from_pkg_a"} and st_ & {"long", "import_dotted"} and case["usage"].get("pkg") == "all_only":
         hz.add("froms_to_imports_reapplied_drops_package_import_named_only_in_all")
     if a == "organize_imports" and case["prefs"]["sort_imports_alphabetically"] and ({"import_lib", "import_lib_as"} <= st_ or {"import_dotted_as", "from_pkg_mod"} <= st_):
         hz.add("organize_imports_sort_unstable_for_same_module")
